@@ -1,4 +1,6 @@
 (** C03 model of the code as it is: the printer ([Printer.v]), the reader restricted to the
     printer's output ([ReadBack.v]) and the executable guards / finding signatures
-    ([Guard.v]).  The round trip the property talks about is [read_text (print pc v)]. *)
-From Verif Require Export C03.Printer C03.ReadBack C03.Guard.
+    ([Guard.v]), and the printer with the two remaining print-control settings, *print-length*
+    and *print-level* ([Limits.v]: [printl pc lim v]; [printl pc lim_nil v = print pc v]).  The
+    round trip the property talks about is [read_text (print pc v)]. *)
+From Verif Require Export C03.Printer C03.ReadBack C03.Guard C03.Limits.
